@@ -72,16 +72,19 @@ def build_family(default_dialect=None):
     C = dataclasses.make_dataclass("C", [("d", datetime.date, F(default=datetime.date(2000, 1, 1))),
                                          ("o", typing.Optional[int], F(default=None)),
                                          ("b", bytes, F(default=b"\x00\x01")),
-                                         ("l", typing.List[int], F(default_factory=list))], bases=(Parent,), namespace=ns("C"))
+                                         ("l", typing.List[int], F(default_factory=list)),
+                                         ("nxt", typing.Optional[typing.Self], F(default=None))], bases=(Parent,), namespace=ns("C"))
     Sub = dataclasses.make_dataclass("Sub", [("z", int, F(default=0))], bases=(C,), namespace=ns("Sub"))
     return {"Parent": Parent, "C": C, "Sub": Sub}
 
 
-def sample(cls, a=1, d=None, o=None):
+def sample(cls, a=1, d=None, o=None, depth=1):
     kw = {"a": a}
     if cls.__name__ in ("C", "Sub"):
         kw["d"] = d or datetime.date(2020, 2, 3)
         kw["o"] = o
+        if depth:
+            kw["nxt"] = sample(cls, a + 1, datetime.date(2019, 1, 1), 5, depth - 1)
     return cls(**kw)
 
 
@@ -187,9 +190,13 @@ def iso_main(S, env):
     # traced observation with symbolic data
     a = env[S.node.a]
     o = None if env[S.node.o_none] else env[S.node.o]
-    x = fam[cname](a=a, d=date, o=o) if cname == "C" else fam[cname](a=a, d=date, o=o, z=3)
-    r = ref[cname](a=a, d=date, o=o) if cname == "C" else ref[cname](a=a, d=date, o=o, z=3)
-    p = plain[cname](a=a, d=date, o=o) if cname == "C" else plain[cname](a=a, d=date, o=o, z=3)
+    def mk(f):
+        inner = sample(f[cname], 7, datetime.date(2018, 3, 4), None, 0)
+        if cname == "C":
+            return f[cname](a=a, d=date, o=o, nxt=inner)
+        return f[cname](a=a, d=date, o=o, z=3, nxt=inner)
+
+    x, r, p = mk(fam), mk(ref), mk(plain)
     if direction.startswith("to"):
         st, got = call(lambda: enc(x, **kw))
         want = enc(r)
